@@ -386,8 +386,8 @@ func (wp *Pool) SetIdleBehavior(id cloud.InstanceID, idleBehavior IdleBehavior) 
 func (wp *Pool) reportSSHConnected(inst cloud.Instance) {
 	wp.mtx.Lock()
 	defer wp.mtx.Unlock()
-	wkr := wp.workers[inst.ID()]
-	if wkr.state != StateBooting || !wkr.firstSSHConnection.IsZero() {
+	wkr, ok := wp.workers[inst.ID()]
+	if !ok || wkr.state != StateBooting || !wkr.firstSSHConnection.IsZero() {
 		// the node is not in booting state (can happen if a-d-c is restarted) OR
 		// this is not the first SSH connection
 		return
